@@ -1331,14 +1331,17 @@ class ParseTriviaSpec(RulesMixin, OpSpec):
         run.pre = {"st": st, "L0": L0, "P0": P0, "pairs": pairs, "snaps": self.snaps(run, st), "me": st}
         if self.defined["SKIP"]:
             # the fused SKIP rule is built by the optimizer as a `*` repetition: it cannot fail
-            run.assume(R[0](SKIP, L0), "the optimizer-built SKIP rule never fails (it is a * repetition; checked in C02)")
+            run.assume(R[0](SKIP, lset(L0, sup=z3.BoolVal(True))), "the optimizer-built SKIP rule never fails (it is a * repetition; checked in C02)")
         return st, [pairs], {}
 
     def K(self, run, L0):  # noqa: N802, N803
         d = self.defined
         atomic = lget(L0, "atom") > 0
         if d["SKIP"]:
-            st, prs = R[1](SKIP, L0), z3.If(R[0](SKIP, L0), R[2](SKIP, L0), EMPTY_P)
+            # the fused SKIP rule is implicit trivia like WHITESPACE / COMMENT: tried with failure recording suppressed
+            # (C13: a synthetic rule must never be listed as expected; the pinned tree called it unsuppressed - repaired)
+            Ls = lset(L0, sup=z3.BoolVal(True))  # noqa: N806
+            st, prs = lset(R[1](SKIP, Ls), sup=z3.BoolVal(False)), z3.If(R[0](SKIP, Ls), R[2](SKIP, Ls), EMPTY_P)
         elif not d["WHITESPACE"] and not d["COMMENT"]:
             st, prs = L0, EMPTY_P
         else:
@@ -1360,8 +1363,16 @@ class ParseTriviaSpec(RulesMixin, OpSpec):
             run.oblige(f"G.{i}", g)
         run.assume(W1(lget(L0, "pos"), lget(L0, "pos")))
         d = self.defined
+        # C13 "the names it lists are rules of the grammar or built-ins": nothing tried as implicit trivia - WHITESPACE,
+        # COMMENT or the optimizer's synthetic SKIP rule - may record an expectation: every rule call made here happens
+        # with failure recording suppressed
+        # (WHITESPACE and COMMENT are rules of the grammar: listing them would not break C13, and whether suppression is
+        # still on after one of them returned is up to its body - G does not promise it; the synthetic rule is the point)
+        for fam, i, L in run.ghost.get("oracle_calls", []):  # noqa: N806
+            if fam[0].name() == "rule_ok" and z3.is_string_value(z3.simplify(i)) and z3.simplify(i).as_string() == "SKIP":
+                run.oblige("trivia.synthetic_rule_tried_with_failures_suppressed", lget(L, "sup"))
         if d["SKIP"]:
-            run.assume(G_inst(R, SKIP, L0))
+            run.assume(G_inst(R, SKIP, lset(L0, sup=z3.BoolVal(True))))
         run.oblige("G.wf", wf(prs, lget(L0, "pos"), lget(L1, "pos")))
 
     def mk_loops(self):
